@@ -183,13 +183,19 @@ func (c *Channel) Open() (reterr error) {
 func (c *Channel) Close() error {
 	c.l.Info("channel closing...")
 
+	util.Yield("chan.close.entry")
+
 	close(c.Errs)
 
 	ch := make(chan struct{})
 
+	util.Yield("chan.close.flag")
+
 	if !c.readLoopExited {
 		go func() {
 			defer close(ch)
+
+			util.Yield("chan.close.sender")
 
 			c.done <- struct{}{}
 		}()
@@ -197,9 +203,13 @@ func (c *Channel) Close() error {
 		close(ch)
 	}
 
+	util.Yield("chan.close.select")
+
 	select {
 	case <-ch:
 		c.l.Debug("closing underlying transport...")
+
+		util.Yield("chan.close.nice")
 
 		return c.t.Close(false)
 	case <-time.After(c.ReadDelay * (c.ReadDelay / readDelayDivisor)): //nolint:durationcheck
@@ -207,6 +217,8 @@ func (c *Channel) Close() error {
 		// transport to finish closing connection, so give it c.ReadDelay*(c.ReadDelay/1000) to
 		// "nicely" exit -- with defaults this ends up being 62.5ms.
 		c.l.Debug("force closing underlying transport...")
+
+		util.Yield("chan.close.force")
 
 		return c.t.Close(true)
 	}
